@@ -2,6 +2,7 @@
 C09: entry-level lemmas for `stiffness2d` / `stiffness3d` (shapes of `matAdd` of Kronecker products).
 -/
 import Pyiga.Proofs.GalerkinKron
+import Pyiga.Proofs.GalerkinAsm
 
 namespace Pyiga.Galerkin
 
@@ -109,6 +110,31 @@ theorem sum_flatMap_range_block (n1 n2 : Nat) (g : Nat → Nat → α) :
   | succ n ih =>
     rw [List.range_succ, List.flatMap_append, List.sum_append, ih, Finset.sum_range_succ]
     simp [sum_map_range]
+
+theorem getD_block {γ : Type} (n1 n2 : Nat) (g : Nat → Nat → γ) (d : γ) (a b : Nat) (ha : a < n1) (hb : b < n2) :
+    ((List.range n1).flatMap fun a => (List.range n2).map fun b => g a b).getD (a * n2 + b) d = g a b := by
+  induction n1 with
+  | zero => omega
+  | succ n ih =>
+    rw [List.range_succ, List.flatMap_append, List.getD_eq_getElem?_getD]
+    by_cases h : a < n
+    · have : a * n2 + b < ((List.range n).flatMap fun a => (List.range n2).map fun b => g a b).length := by
+        rw [length_block]; exact idx_lt a b n n2 h hb
+      rw [List.getElem?_append_left this, ← List.getD_eq_getElem?_getD]; exact ih h
+    · have hn : a = n := by omega
+      subst hn
+      have : ((List.range a).flatMap fun a => (List.range n2).map fun b => g a b).length ≤ a * n2 + b := by
+        rw [length_block]; omega
+      rw [List.getElem?_append_right this, length_block]
+      simp [hb]
+
+theorem map_eq_map_range {β γ : Type} (l : List β) (d : β) (f : β → γ) :
+    l.map f = (List.range l.length).map fun k => f (l.getD k d) := by
+  apply List.ext_getElem
+  · simp
+  · intro i h1 h2
+    simp at h1
+    simp [List.getD_eq_getElem?_getD, List.getElem?_eq_getElem h1]
 
 end Ring
 
